@@ -94,7 +94,7 @@ def check(ctx):
     with group(ctx, "run-callbacks/shape"):
         S = RunShape(ctx)
     g, cur, chain = (S.g, S.cur, S.chain) if S is not None else (None, None, None)
-    cur_res = lambda e: attr_of(e, "result", cur)
+    cur_res = (lambda e: S.is_cur_result(e)) if S is not None else (lambda e: False)
 
     with group(ctx, "chain-stack"):
         _need_shape(S)
@@ -256,7 +256,7 @@ def check(ctx):
             ctx.check(S.is_continue(c) is False, "callout/not-the-sentinel", cons,
                       "the _CONTINUE marker can reach the user call-out and be called like a callback")
             # arguments and destination
-            a_ok = (len(call.args) == 2 and attr_of(call.args[0], "result", cur) and isinstance(call.args[1], ast.Starred)
+            a_ok = (len(call.args) == 2 and S.is_cur_result(call.args[0]) and isinstance(call.args[1], ast.Starred)
                     and is_name(call.args[1].value, S.a) and len(call.keywords) == 1 and call.keywords[0].arg is None
                     and is_name(call.keywords[0].value, S.kw))
             ctx.check(a_ok, "callout/arguments", cons,
@@ -296,7 +296,7 @@ def check(ctx):
                           witness=g.describe(wit))
         # slot selection by the kind of the current result
         is_fail_test = lambda e: isinstance(e, ast.Call) and dotted(e.func) == "isinstance" and len(e.args) == 2 \
-            and attr_of(e.args[0], "result", cur) and is_name(e.args[1], "Failure")
+            and S.is_cur_result(e.args[0]) and is_name(e.args[1], "Failure")
         for n, k in S.unpacks:
             if isinstance(k, ast.AST):
                 # item[1 if <test> else 0]  or  item[<test>] (a bool indexes 0 / 1)
@@ -425,7 +425,7 @@ def check(ctx):
         chainee = S.chainee
         cont_T = [d for t in S.cont_tests for d, l in g.succ[t]
                   if l in ("T", "F") and ident_fact(g.node(t).ast, l == "T", lambda x: is_name(x, S.cb), lambda x: (dotted(x) or "").endswith("_CONTINUE")) is True]
-        handover = stmt_nodes(g, lambda st: any(attr_of(t, "result", chainee) and v is not None and attr_of(v, "result", cur) for t, v in targets_values(st)))
+        handover = stmt_nodes(g, lambda st: any(attr_of(t, "result", chainee) and v is not None and S.is_cur_result(v) for t, v in targets_values(st)))
         dec = stmt_nodes(g, lambda st: isinstance(st, ast.AugAssign) and attr_of(st.target, "paused", chainee) and isinstance(st.op, ast.Sub)
                          and const_int(st.value) == 1) + call_nodes(g, lambda c: method_call(c, "unpause", chainee))
         clear = stmt_nodes(g, lambda st: any(attr_of(t, "result", cur) and is_const(v, None) for t, v in targets_values(st) if v is not None))
@@ -757,6 +757,11 @@ MUTANTS = [
            "                try:\n                    with _Busy(current):\n                        current.result = callback(current.result, *args, **kwargs)\n                        if current.result is current:\n                            warnAboutFunction(callback, \"Callback returned the Deferred it was attached to\")\n                except BaseException:\n",
            more=[(D, "class Deferred(Awaitable[_SelfResultT]):\n", "class _Busy:\n    def __init__(self, d):\n        self._d = d\n\n    def __enter__(self):\n        self._d._runningCallbacks = True\n\n    def __exit__(self, *exc):\n        if exc[0] is None:\n            self._d._runningCallbacks = False\n\n\nclass Deferred(Awaitable[_SelfResultT]):\n")],
            expect_rule="reentrancy/flag-reset-on-every-exit"),
+    Mutant("temporaries-with-slots-crossed", D, "                item = current.callbacks.pop(0)\n                if not isinstance(current.result, Failure):\n                    callback, args, kwargs = item[0]\n                else:\n                    # type note: Callback signature also works for Errbacks in\n                    #     this context.\n                    callback, args, kwargs = item[1]\n",
+           "                item = current.callbacks.pop(0)\n                given = current.result\n                callback, args, kwargs = item[0] if isinstance(given, Failure) else item[1]\n",
+           more=[(D, "                        current.result = callback(  # type: ignore[misc]\n                            current.result, *args, **kwargs\n                        )\n\n                        if current.result is current:", "                        got = current.result = callback(given, *args, **kwargs)\n\n                        if got is current:"),
+                 (D, "                    if type(current.result) in _DEFERRED_SUBCLASSES:", "                    if type(got) in _DEFERRED_SUBCLASSES:"),
+                 (D, "                        currentResult: Deferred[_SelfResultT] = current.result  # type: ignore[assignment]\n", "                        currentResult = got\n")], expect_rule="callout/slot-selection"),
 ]
 SILENT = [
     Silent("rename-locals", D, "item = current.callbacks.pop(0)\n                if not isinstance(current.result, Failure):\n                    callback, args, kwargs = item[0]",
@@ -831,4 +836,9 @@ SILENT = [
            "        self._register((callback, args, kwargs), (_failthru, (), {}))\n        return self\n",
            more=[(D, "        self.callbacks.append(((passthru, (), {}), (errback, args, kwargs)))\n\n        if self.called:\n            self._runCallbacks()\n\n        return self\n", "        self._register((passthru, (), {}), (errback, args, kwargs))\n        return self\n"),
                  (D, "    def chainDeferred(self, d:", "    def _register(self, good, bad):\n        self.callbacks.append((good, bad))\n        if self.called:\n            self._runCallbacks()\n\n    def chainDeferred(self, d:")]),
+    Silent("incoming-and-outcome-as-named-temporaries", D, "                item = current.callbacks.pop(0)\n                if not isinstance(current.result, Failure):\n                    callback, args, kwargs = item[0]\n                else:\n                    # type note: Callback signature also works for Errbacks in\n                    #     this context.\n                    callback, args, kwargs = item[1]\n",
+           "                item = current.callbacks.pop(0)\n                given = current.result\n                callback, args, kwargs = item[1] if isinstance(given, Failure) else item[0]\n",
+           more=[(D, "                        current.result = callback(  # type: ignore[misc]\n                            current.result, *args, **kwargs\n                        )\n\n                        if current.result is current:", "                        got = current.result = callback(given, *args, **kwargs)\n\n                        if got is current:"),
+                 (D, "                    if type(current.result) in _DEFERRED_SUBCLASSES:", "                    if type(got) in _DEFERRED_SUBCLASSES:"),
+                 (D, "                        currentResult: Deferred[_SelfResultT] = current.result  # type: ignore[assignment]\n", "                        currentResult = got\n")]),
 ]
